@@ -75,83 +75,100 @@ func c17DaemonJob(tier string) Job {
 						r.exhausted = false
 						return r.toScen(name, t0, nil)
 					}
-					desc := fmt.Sprintf("containers g1(gp-1)=%s with port file %s, g2(gp-2)=%s; both set up by the daemon, no DEL", s1, pf, s2)
-					h.reset()
-					c1, b1 := h.request("ADD", "g1", "gp-1", "eth0")
-					c2, b2 := h.request("ADD", "g2", "gp-2", "eth0")
-					if c1 != 200 || c2 != 200 {
-						panic(fmt.Sprintf("daemon ADD failed: %d %s / %d %s", c1, b1, c2, b2))
-					}
-					if !exists(stateFile("g1")) || !exists(portFile("g1")) || len(natOf("gp-1")) == 0 || len(natOf("gp-2")) == 0 {
-						panic("daemon ADD left no state/port file or NAT rules: " + h.kern.Save("nat"))
-					}
-					nat2 := natOf("gp-2")
-					data, _ := os.ReadFile(portFile("g1"))
-					switch pf {
-					case "torn":
-						_ = os.WriteFile(portFile("g1"), data[:len(data)/2], 0o600)
-					case "empty":
-						_ = os.WriteFile(portFile("g1"), nil, 0o600)
-					case "gone":
-						_ = os.Remove(portFile("g1"))
-					case "not-json":
-						_ = os.WriteFile(portFile("g1"), []byte("\x00\x00garbage"), 0o600)
-					}
-					d.mu.Lock()
-					d.states = map[string]string{full("g1"): s1, full("g2"): s2}
-					d.calls, d.n, d.faultAt = nil, 0, 0
-					d.mu.Unlock()
-					st := map[string]string{"g1": s1, "g2": s2}
-					r.evals++
-					for round := 1; round <= 3; round++ {
-						gc.VerifRunOnce(g)
-						// safety after every round
+					// fault-free first; for a dead g1 with an intact port file also with the k-th netfilter command of round 1 failing, for
+					// every k (rounds 2 and 3 are fault-free: what a failed attempt leaves behind must still be collected)
+					maxFault := 0
+					for failAt := 0; failAt <= maxFault; failAt++ {
+						desc := fmt.Sprintf("containers g1(gp-1)=%s with port file %s, g2(gp-2)=%s; both set up by the daemon, no DEL", s1, pf, s2)
+						if failAt > 0 {
+							desc += fmt.Sprintf("; the %d-th netfilter command of round 1 fails", failAt)
+						}
+						h.reset()
+						c1, b1 := h.request("ADD", "g1", "gp-1", "eth0")
+						c2, b2 := h.request("ADD", "g2", "gp-2", "eth0")
+						if c1 != 200 || c2 != 200 {
+							panic(fmt.Sprintf("daemon ADD failed: %d %s / %d %s", c1, b1, c2, b2))
+						}
+						if !exists(stateFile("g1")) || !exists(portFile("g1")) || len(natOf("gp-1")) == 0 || len(natOf("gp-2")) == 0 {
+							panic("daemon ADD left no state/port file or NAT rules: " + h.kern.Save("nat"))
+						}
+						nat2 := natOf("gp-2")
+						data, _ := os.ReadFile(portFile("g1"))
+						switch pf {
+						case "torn":
+							_ = os.WriteFile(portFile("g1"), data[:len(data)/2], 0o600)
+						case "empty":
+							_ = os.WriteFile(portFile("g1"), nil, 0o600)
+						case "gone":
+							_ = os.Remove(portFile("g1"))
+						case "not-json":
+							_ = os.WriteFile(portFile("g1"), []byte("\x00\x00garbage"), 0o600)
+						}
+						d.mu.Lock()
+						d.states = map[string]string{full("g1"): s1, full("g2"): s2}
+						d.calls, d.n, d.faultAt = nil, 0, 0
+						d.mu.Unlock()
+						st := map[string]string{"g1": s1, "g2": s2}
+						r.evals++
+						for round := 1; round <= 3; round++ {
+							if round == 1 {
+								h.kern.ResetFault(failAt)
+							}
+							gc.VerifRunOnce(g)
+							if round == 1 {
+								if failAt == 0 && pf == "intact" && dead(s1) {
+									maxFault = h.kern.Count()
+								}
+								h.kern.ResetFault(0)
+							}
+							// safety after every round
+							for _, c := range cids {
+								if dead(st[c]) {
+									continue
+								}
+								if !exists(stateFile(c)) || (c == "g2" || pf != "gone") && !exists(portFile(c)) {
+									r.violate("C17", name, "safety", "state-of-live-or-unknown-container-removed", st[c], fmt.Sprintf("%s: state or port file of %s removed in round %d", desc, c, round), []string{desc})
+								}
+							}
+							if !dead(s2) && fmt.Sprint(natOf("gp-2")) != fmt.Sprint(nat2) {
+								r.violate("C17", name, "safety", "port-mapping-cleaned-for-live-or-unknown-container", s2, fmt.Sprintf("%s: NAT rules of gp-2 changed in round %d: %v -> %v", desc, round, nat2, natOf("gp-2")), []string{desc})
+							}
+							if !dead(s1) && pf == "intact" && len(natOf("gp-1")) == 0 {
+								r.violate("C17", name, "safety", "port-mapping-cleaned-for-live-or-unknown-container", s1, fmt.Sprintf("%s: NAT rules of gp-1 removed in round %d", desc, round), []string{desc})
+							}
+						}
+						// liveness after three rounds: nothing of a dead container is left
+						var left []string
 						for _, c := range cids {
-							if dead(st[c]) {
+							if !dead(st[c]) {
 								continue
 							}
-							if !exists(stateFile(c)) || (c == "g2" || pf != "gone") && !exists(portFile(c)) {
-								r.violate("C17", name, "safety", "state-of-live-or-unknown-container-removed", st[c], fmt.Sprintf("%s: state or port file of %s removed in round %d", desc, c, round), []string{desc})
+							for _, p := range []string{stateFile(c), portFile(c)} {
+								if exists(p) {
+									left = append(left, strings.Replace(p, h.cidPfx, "", 1))
+								}
 							}
 						}
-						if !dead(s2) && fmt.Sprint(natOf("gp-2")) != fmt.Sprint(nat2) {
-							r.violate("C17", name, "safety", "port-mapping-cleaned-for-live-or-unknown-container", s2, fmt.Sprintf("%s: NAT rules of gp-2 changed in round %d: %v -> %v", desc, round, nat2, natOf("gp-2")), []string{desc})
+						if dead(s1) && pf == "intact" {
+							left = append(left, natOf("gp-1")...)
 						}
-						if !dead(s1) && pf == "intact" && len(natOf("gp-1")) == 0 {
-							r.violate("C17", name, "safety", "port-mapping-cleaned-for-live-or-unknown-container", s1, fmt.Sprintf("%s: NAT rules of gp-1 removed in round %d", desc, round), []string{desc})
+						if dead(s2) {
+							left = append(left, natOf("gp-2")...)
 						}
-					}
-					// liveness after three rounds: nothing of a dead container is left
-					var left []string
-					for _, c := range cids {
-						if !dead(st[c]) {
-							continue
+						if len(left) > 0 {
+							r.violate("C17", name, "liveness", "dead-container-state-survives-three-rounds", "gc+daemon-callback", fmt.Sprintf("%s: still there after three rounds: %v", desc, left), []string{desc})
 						}
-						for _, p := range []string{stateFile(c), portFile(c)} {
-							if exists(p) {
-								left = append(left, strings.Replace(p, h.cidPfx, "", 1))
-							}
+						// tear down through the daemon (closes the host port sockets of this case)
+						defer0 := func() {
+							h.request("DEL", "g1", "gp-1", "eth0")
+							h.request("DEL", "g2", "gp-2", "eth0")
 						}
+						r.distinct[hashOf(s1, s2, pf, failAt, exists(stateFile("g1")), exists(portFile("g1")), exists(stateFile("g2")), len(natOf("gp-1")), len(natOf("gp-2")))] = true
+						if len(r.samples) < 3 && r.evals%17 == 1 {
+							r.samples = append(r.samples, fmt.Sprintf("%s -> files g1 %v/%v g2 %v/%v, NAT rules gp-1 %d gp-2 %d", desc, exists(stateFile("g1")), exists(portFile("g1")), exists(stateFile("g2")), exists(portFile("g2")), len(natOf("gp-1")), len(natOf("gp-2"))))
+						}
+						defer0()
 					}
-					if dead(s1) && pf == "intact" {
-						left = append(left, natOf("gp-1")...)
-					}
-					if dead(s2) {
-						left = append(left, natOf("gp-2")...)
-					}
-					if len(left) > 0 {
-						r.violate("C17", name, "liveness", "dead-container-state-survives-three-rounds", "gc+daemon-callback", fmt.Sprintf("%s: still there after three rounds: %v", desc, left), []string{desc})
-					}
-					// tear down through the daemon (closes the host port sockets of this case)
-					defer0 := func() {
-						h.request("DEL", "g1", "gp-1", "eth0")
-						h.request("DEL", "g2", "gp-2", "eth0")
-					}
-					r.distinct[hashOf(s1, s2, pf, exists(stateFile("g1")), exists(portFile("g1")), exists(stateFile("g2")), len(natOf("gp-1")), len(natOf("gp-2")))] = true
-					if len(r.samples) < 3 && r.evals%17 == 1 {
-						r.samples = append(r.samples, fmt.Sprintf("%s -> files g1 %v/%v g2 %v/%v, NAT rules gp-1 %d gp-2 %d", desc, exists(stateFile("g1")), exists(portFile("g1")), exists(stateFile("g2")), exists(portFile("g2")), len(natOf("gp-1")), len(natOf("gp-2"))))
-					}
-					defer0()
 				}
 			}
 		}
